@@ -1810,6 +1810,78 @@ def translate_to_string(header, cls, strs):
     return res
 
 
+# ---- header_field::to_header(name, value) / content_length(size) / chunked_encoding(): { return e; } ---------------------
+HF_FUNCS = [dict(name="to_header", params=["name", "value"], num=None),
+            dict(name="content_length", params=[], num="size"),
+            dict(name="chunked_encoding", params=[], num=None)]
+
+
+def translate_hf_function(fname, params, num):
+    """inline std::string f(params) { return e; }  ->  M_Str.xstmt (XSeq (XInit e) XReturn); string-valued parameters are
+       numbered in order, the size_t parameter is the numeric slot, named constants are the regenerated tables' hf_ names"""
+    with tempfile.TemporaryDirectory() as d:
+        tu = os.path.join(d, "tu.cpp")
+        with open(tu, "w") as f:
+            f.write('#include "via/http/header_field.hpp"\n')
+        p = subprocess.run(["clang++", "-std=c++17", "-I" + os.path.join(REPO, "include"), "-fsyntax-only",
+                            "-Xclang", "-ast-dump=json", "-Xclang", "-ast-dump-filter=header_field::" + fname, tu],
+                           stdout=subprocess.PIPE, stderr=subprocess.PIPE, text=True)
+        if p.returncode != 0:
+            raise Untranslatable("clang: " + p.stderr[-400:])
+        docs = load_docs(p.stdout)
+    what = "header_field::%s" % fname
+    want = params + ([num] if num else [])
+    fns = []
+    for dd in docs:
+        for n in walk(dd):
+            if n.get("kind") == "FunctionDecl" and n.get("name") == fname and any(c.get("kind") == "CompoundStmt" for c in kids(n)):
+                ps = [c for c in kids(n) if c.get("kind") == "ParmVarDecl"]
+                if [c.get("name") for c in ps] == want and all(("string_view" in c.get("type", {}).get("qualType", "")) == (c.get("name") in params) for c in ps):
+                    fns.append(n)
+    if len(fns) != 1:
+        raise Untranslatable("%s: %d definitions with parameters %s" % (what, len(fns), want))
+    body = kids([c for c in kids(fns[0]) if c.get("kind") == "CompoundStmt"][0])
+    if len(body) != 1 or body[0].get("kind") != "ReturnStmt":
+        raise Untranslatable("%s is not a single return" % what)
+    import re
+    consts = set(re.findall(r"^Definition (hf_[A-Z0-9_]+) ", open(os.path.join(os.path.dirname(os.path.dirname(os.path.abspath(__file__))), "coq", "Gen_Tables.v")).read(), re.M))
+
+    def unwrap(n):
+        n = strip(n)
+        while True:
+            if n.get("kind") in ("MaterializeTemporaryExpr", "CXXBindTemporaryExpr") and kids(n):
+                n = strip(kids(n)[0])
+            elif n.get("kind") in ("CXXConstructExpr", "CXXTemporaryObjectExpr") and len([a for a in kids(n) if a.get("kind") != "CXXDefaultArgExpr"]) == 1:
+                n = strip([a for a in kids(n) if a.get("kind") != "CXXDefaultArgExpr"][0])
+            else:
+                return n
+
+    def callee_name(n):
+        f = strip(kids(n)[0])
+        return f.get("referencedDecl", {}).get("name") if f.get("kind") == "DeclRefExpr" else None
+
+    def xexp(n):
+        n = unwrap(n)
+        k = n.get("kind")
+        if k == "DeclRefExpr":
+            nm = n.get("referencedDecl", {}).get("name"); rk = n.get("referencedDecl", {}).get("kind")
+            if rk == "ParmVarDecl" and nm in params:
+                return "(XMem %d%%nat)" % params.index(nm)
+            if nm == "CRLF":
+                return "XCrLf"
+            if rk == "VarDecl" and "hf_" + nm in consts:
+                return "(XLit hf_%s)" % nm
+        if k == "CXXOperatorCallExpr" and callee_name(n) == "operator+" and len(kids(n)) == 3:
+            return "(XCat %s %s)" % (xexp(kids(n)[1]), xexp(kids(n)[2]))
+        if k == "CallExpr" and callee_name(n) == "to_string" and len(kids(n)) == 2:
+            a = strip(kids(n)[1])
+            if num and a.get("kind") == "DeclRefExpr" and a.get("referencedDecl", {}).get("name") == num and a.get("referencedDecl", {}).get("kind") == "ParmVarDecl":
+                return "XNumDec"
+        raise Untranslatable("%s: an expression (%s)" % (what, k))
+
+    return "(XSeq (XInit %s) XReturn)" % xexp(kids(body[0])[0])
+
+
 CLASSES = [
     dict(name="rl", cls="request_line", header="via/http/request.hpp", enum="Request", state="state_", param="c",
          strs=["method_", "uri_"], nums=["ws_count_", "major_version_", "minor_version_", "valid_", "fail_"],
@@ -1983,6 +2055,9 @@ def main(dest):
     lines.append("(* request_line / response_line / chunk_header / last_chunk ::to_string() *)")
     for t in TO_STRING:
         lines.append("Definition %s_to_string_src : xstmt :=\n  %s." % (t["name"], translate_to_string(t["header"], t["name"], t["strs"])))
+    lines.append("(* header_field::to_header(name, value) / content_length(size) / chunked_encoding() *)")
+    for t in HF_FUNCS:
+        lines.append("Definition hf_%s_src : xstmt :=\n  %s." % (t["name"], translate_hf_function(t["name"], t["params"], t["num"])))
     txt = "\n".join(lines) + "\n"
     # unchanged output keeps its time stamp: make then has nothing to rebuild
     if not os.path.exists(dest) or open(dest).read() != txt:
